@@ -23,6 +23,7 @@ import (
 
 	"github.com/postalsys/muti-metroo/internal/config"
 	"github.com/postalsys/muti-metroo/internal/crypto"
+	"github.com/postalsys/muti-metroo/internal/flood"
 	"github.com/postalsys/muti-metroo/internal/identity"
 	"github.com/postalsys/muti-metroo/internal/protocol"
 	"github.com/postalsys/muti-metroo/internal/sleep"
@@ -187,6 +188,15 @@ func (g *c28Gen) fresh(wake bool) *c28Cmd {
 func (g *c28Gen) genuine(wake bool) *c28Cmd {
 	c := g.fresh(wake)
 	c.Class = "valid"
+	g.sign(c, g.good)
+	return g.finish(c)
+}
+
+// genuineAt is genuine with timestamp now+off.
+func (g *c28Gen) genuineAt(wake bool, off time.Duration) *c28Cmd {
+	c := g.fresh(wake)
+	c.Class = "valid"
+	c.TS = g.tsAt(off)
 	g.sign(c, g.good)
 	return g.finish(c)
 }
@@ -391,7 +401,19 @@ const c28Watchdog = 60 * time.Second
 
 // c28NewRig builds and starts a real agent with sleep enabled and a signing public key.
 func c28NewRig(r *verifkit.R, rng *verifkit.Rand, dataDir string, npeers int) (*c28Rig, error) {
-	g := c28NewGen(rng, 5*time.Minute) // the agent uses the flooder's default window
+	return c28NewRigTimed(r, rng, dataDir, npeers, 0, 0)
+}
+
+// c28NewRigTimed is c28NewRig; with window > 0 the agent's flooder is replaced, between New
+// and Start, by one built with the exported constructor on the same routing/peer managers
+// and the same signing key but a short timestamp window and seen-cache TTL, so that
+// histories in which real time passes beyond the window fit into a few seconds.
+func c28NewRigTimed(r *verifkit.R, rng *verifkit.Rand, dataDir string, npeers int, window, ttl time.Duration) (*c28Rig, error) {
+	gw := window
+	if gw == 0 {
+		gw = 5 * time.Minute // the agent uses the flooder's default window
+	}
+	g := c28NewGen(rng, gw)
 	cfg := config.Default()
 	cfg.Agent.DataDir = dataDir
 	cfg.Agent.LogLevel = "error"
@@ -406,6 +428,16 @@ func c28NewRig(r *verifkit.R, rng *verifkit.Rand, dataDir string, npeers int) (*
 	a, err := New(cfg)
 	if err != nil {
 		return nil, fmt.Errorf("agent.New: %w", err)
+	}
+	if window > 0 {
+		fc := flood.DefaultFloodConfig()
+		fc.Logger = a.logger
+		pub := g.good.PublicKey
+		fc.SigningPublicKey = &pub
+		fc.TimestampWindow = window
+		fc.SeenCacheTTL = ttl
+		a.flooder.Stop()
+		a.flooder = flood.NewFlooder(fc, a.id, a.routeMgr, a.peerMgr)
 	}
 	if err := a.Start(); err != nil {
 		return nil, fmt.Errorf("agent.Start: %w", err)
